@@ -10,11 +10,12 @@
      g_minted    refund-counter gas credited to a sender and still counted as reward
      g_dust      distributable rewards of a validator deleted at the end of a block
      g_dropped   deposits of pending records reset without having taken effect
-   and of two anomalies that need a negative amount / a second create (never
-   observed; not proved unreachable, see SPEC "partial")
+   and of two anomalies that are proved never to occur (C07_create_never_dropped,
+   C07_value_invariant; every in-Coq model run still flags a history on which
+   one of them moves: field 9 of the comparison)
      g_dupcreate a pending create that meets an existing validator
      g_negwd     a negative FinalBalance written off / a negative penalty credited. *)
-From VF.C07 Require Import Model ProofsLedger ProofsTx ProofsSlash ProofsRewards ProofsEffect ProofsInv.
+From VF.C07 Require Import Model ProofsLedger ProofsTx ProofsSlash ProofsRewards ProofsEffect ProofsInv ProofsPos.
 From Coq Require Import Lia.
 Local Open Scope Z_scope.
 
@@ -50,40 +51,80 @@ Theorem C07_create_never_dropped :
 Proof. exact run_chain_dup. Qed.
 Print Assumptions C07_create_never_dropped.
 
-(* "_partial": the statement one wants has only the three finding-class counters
-   as hypotheses.  g_dupcreate is disposed of by C07_create_never_dropped.  That
-   g_negwd never moves is proved only step by step (C07_anomalies_local_partial
-   below): over whole chains it needs the non-negativity of all staked amounts
-   (C08: Token = SelfToken + sum of the delegations), which is not proved here
-   (the in-Coq model runs flag any history on which it moves: field 9 of the
-   comparison; none ever did). *)
-Lemma holds_outside4 : forall p l s s', wf p s -> cinv s -> Forall block_ok l -> run_chain p s l = Ok s' ->
-  g_minted s' = g_minted s -> g_dust s' = g_dust s -> g_dropped s' = g_dropped s -> g_negwd s' = g_negwd s ->
-  supply s' = supply s.
+(* The value-level invariant of the ledger [pos]: every validator's tokens are
+   its own tokens plus the tokens of its delegations, all of them non-negative,
+   the delegation lists are sorted by delegator, no withdraw record has a
+   negative balance (this ledger's restatement of the token clause of
+   C08_value_level_invariant: totals = own + delegations).  It is preserved by
+   every block of every chain, and along it the anomaly counter g_negwd never
+   moves: no negative withdraw balance is written off, no negative penalty is
+   credited.  [pok p]: the double-sign penalty fraction is not negative. *)
+Theorem C07_value_invariant :
+  forall p l s s', pok p -> wf p s -> pos s -> Forall block_ok l -> run_chain p s l = Ok s' ->
+    pos s' /\ g_negwd s' = g_negwd s.
+Proof. exact run_chain_pos. Qed.
+Print Assumptions C07_value_invariant.
+
+(* a genesis ledger: validators without delegations whose tokens are their own
+   non-negative tokens, no withdraw record, no pending record, residue >= 0
+   (what genesis allocation through CreateValidator produces) *)
+Definition genesis_like (s : state) : Prop :=
+  s_recs s = [] /\ s_queue s = [] /\ 0 <= residue_of s /\
+  Forall (fun v => v_dlgs v = [] /\ v_token v = v_self_token v /\ 0 <= v_self_token v) (s_vals s).
+
+Lemma genesis_establishes : forall p s, genesis_like s -> wf p s /\ cinv s /\ pos s.
 Proof.
-  intros p l s s' W C B R H1 H2 H3 H5. destruct (run_chain_dup p l s s' C R) as [H4 _].
+  intros p s (Hr & Hq & Hres & Hv). split; [split; [exact Hres|unfold recs_checked; rewrite Hr; constructor]|].
+  split; [unfold cinv; rewrite Hr; cbn; repeat split; [constructor|constructor|contradiction]|].
+  split; [|unfold qok; rewrite Hq; constructor].
+  eapply Forall_impl; [|exact Hv]. intros v (D & T & S). unfold vok. rewrite D. cbn.
+  split; [exact S|]. split; [split; [exists 0; exact I|constructor]|lia].
+Qed.
+Theorem C07_genesis_establishes : forall p s, genesis_like s -> wf p s /\ cinv s /\ pos s.
+Proof. exact genesis_establishes. Qed.
+Print Assumptions C07_genesis_establishes.
+
+(* The property outside the open findings: along every chain on which none of
+   the three finding classes occurs (no refund-counter gas minted, no validator
+   deleted with undistributed rewards, no pending record dropped) the supply is
+   constant.  The two anomaly counters are disposed of by
+   C07_create_never_dropped and C07_value_invariant. *)
+Lemma holds_outside3 : forall p l s s', pok p -> wf p s -> cinv s -> pos s -> Forall block_ok l -> run_chain p s l = Ok s' ->
+  g_minted s' = g_minted s -> g_dust s' = g_dust s -> g_dropped s' = g_dropped s -> supply s' = supply s.
+Proof.
+  intros p l s s' K W C P B R H1 H2 H3.
+  destruct (run_chain_dup p l s s' C R) as [H4 _]. destruct (run_chain_pos p l s s' K W P B R) as [_ H5].
   eapply holds_outside; eauto.
 Qed.
-Theorem C07_holds_outside_partial :
-  forall p l s s', wf p s -> cinv s -> Forall block_ok l -> run_chain p s l = Ok s' ->
-    g_minted s' = g_minted s -> g_dust s' = g_dust s -> g_dropped s' = g_dropped s -> g_negwd s' = g_negwd s ->
-    supply s' = supply s.
-Proof. exact holds_outside4. Qed.
-Print Assumptions C07_holds_outside_partial.
+Theorem C07_holds_outside :
+  forall p l s s', pok p -> wf p s -> cinv s -> pos s -> Forall block_ok l -> run_chain p s l = Ok s' ->
+    g_minted s' = g_minted s -> g_dust s' = g_dust s -> g_dropped s' = g_dropped s -> supply s' = supply s.
+Proof. exact holds_outside3. Qed.
+Print Assumptions C07_holds_outside.
 
+Lemma holds_outside_genesis : forall p l s s', pok p -> genesis_like s -> Forall block_ok l -> run_chain p s l = Ok s' ->
+  g_minted s' = g_minted s -> g_dust s' = g_dust s -> g_dropped s' = g_dropped s -> supply s' = supply s.
+Proof. intros p l s s' K G. destruct (genesis_establishes p s G) as (W & C & P). apply holds_outside3; auto. Qed.
+Theorem C07_holds_outside_from_genesis :
+  forall p l s s', pok p -> genesis_like s -> Forall block_ok l -> run_chain p s l = Ok s' ->
+    g_minted s' = g_minted s -> g_dust s' = g_dust s -> g_dropped s' = g_dropped s -> supply s' = supply s.
+Proof. exact holds_outside_genesis. Qed.
+Print Assumptions C07_holds_outside_from_genesis.
+
+(* where exactly the two anomaly counters could move (local facts used above) *)
 Lemma anomalies_local :
   (forall s w s1 w1, withdraw_step s w = (s1, w1) -> 0 <= w_final w -> g_negwd s1 = g_negwd s /\ g_dupcreate s1 = g_dupcreate s) /\
   (forall p s typ val amount s', do_penalize p s typ val amount = Ok s' -> 0 <= amount -> g_negwd s' = g_negwd s /\ g_dupcreate s' = g_dupcreate s) /\
   (forall p s id from c s', take_effect p s (mkPtx id from (ACreate c)) = Ok s' -> get_val s (c_main c) = None ->
      g_dupcreate s' = g_dupcreate s /\ g_negwd s' = g_negwd s /\ get_val s' (c_main c) = Some (new_validator p c)).
 Proof. split; [exact anomaly_withdraw|split; [exact anomaly_penalty|exact anomaly_create]]. Qed.
-Theorem C07_anomalies_local_partial :
+Theorem C07_anomalies_local :
   (forall s w s1 w1, withdraw_step s w = (s1, w1) -> 0 <= w_final w -> g_negwd s1 = g_negwd s /\ g_dupcreate s1 = g_dupcreate s) /\
   (forall p s typ val amount s', do_penalize p s typ val amount = Ok s' -> 0 <= amount -> g_negwd s' = g_negwd s /\ g_dupcreate s' = g_dupcreate s) /\
   (forall p s id from c s', take_effect p s (mkPtx id from (ACreate c)) = Ok s' -> get_val s (c_main c) = None ->
      g_dupcreate s' = g_dupcreate s /\ g_negwd s' = g_negwd s /\ get_val s' (c_main c) = Some (new_validator p c)).
 Proof. exact anomalies_local. Qed.
-Print Assumptions C07_anomalies_local_partial.
+Print Assumptions C07_anomalies_local.
 
 (* ---- witnesses: the faithful model of the current code does not conserve ---------- *)
 
@@ -268,3 +309,13 @@ Proof.
   vm_compute in E. injection E as <-. reflexivity.
 Qed.
 Print Assumptions C07_nonvacuous_create.
+
+(* the example ledger is a genesis ledger, and its parameters meet [pok] *)
+Example C07_nonvacuous_invariant : pok ex_p /\ genesis_like ex_s /\ pos ex_s /\ vsum v_token (s_vals ex_s) = 25000.
+Proof.
+  split; [vm_compute; discriminate|]. assert (G : genesis_like ex_s).
+  { split; [reflexivity|]. split; [reflexivity|]. split; [vm_compute; discriminate|].
+    repeat constructor; vm_compute; discriminate. }
+  split; [exact G|]. split; [apply (genesis_establishes ex_p ex_s G)|reflexivity].
+Qed.
+Print Assumptions C07_nonvacuous_invariant.
